@@ -5,10 +5,13 @@ from __future__ import annotations
 from typing import TYPE_CHECKING, ClassVar, Generic, TypeVar, cast
 from warnings import warn
 
+import numpy as np
+
 from quansino.mc.canonical import Canonical
 from quansino.mc.contexts import DeformationContext
 from quansino.mc.criteria import CanonicalCriteria, IsobaricCriteria
 from quansino.moves.cell import CellMove
+from quansino.moves.composite import CompositeMove
 from quansino.moves.displacement import DisplacementMove
 
 if TYPE_CHECKING:
@@ -131,6 +134,30 @@ class Isobaric(Canonical[MoveType, CriteriaType], Generic[MoveType, CriteriaType
         self.context.last_cell = self.atoms.get_cell()
 
         super().validate_simulation()
+
+    def save_state(self) -> None:
+        """
+        Save the current state of the context. When the accepted move changed the
+        cell, every distinct move of the move table is notified once through
+        `on_cell_changed`.
+        """
+        new_cell = self.atoms.get_cell()
+
+        if not np.array_equal(new_cell.array, self.context.last_cell.array):
+            notified: list[Move] = []
+
+            def notify(move: Move) -> None:
+                if isinstance(move, CompositeMove):
+                    for sub_move in move.moves:
+                        notify(sub_move)
+                elif not any(move is other for other in notified):
+                    notified.append(move)
+                    move.on_cell_changed(new_cell)
+
+            for move_storage in self.moves.values():
+                notify(move_storage.move)
+
+        super().save_state()
 
     def revert_state(self) -> None:
         """
